@@ -52,6 +52,7 @@ let is_ident s =
   (let ok = ref true in
    String.iter (fun c -> if not ((c >= 'a' && c <= 'z') || (c >= 'A' && c <= 'Z') || c = '_' || is_dig c) then ok := false) s; !ok)
 let float_numeral_re = Str.regexp "^-?\\([0-9]+\\(\\.[0-9]*\\)?\\|\\.[0-9]+\\)\\([eE][-+]?[0-9]+\\)?$"
+let int_chain_re = Str.regexp "^[0-9]+\\(-[0-9]+\\)+$"
 let keywords = ["and"; "break"; "do"; "else"; "elseif"; "end"; "for"; "function"; "goto"; "if"; "in"; "local";
                 "not"; "or"; "repeat"; "return"; "then"; "until"; "while"]
 
@@ -68,6 +69,11 @@ let lua_eval (_g : float store) (a : n list) : float lua list option =
     else if s = "false" then Some [LBool false]
     else if s = "nil" then Some [LNil]
     else if Str.string_match float_numeral_re s 0 then Some [LNum (NFlt (float_of_string s))]
+    else if Str.string_match int_chain_re s 0 then
+      (* integer subtraction chains such as 1-2 (texts the repaired isNumeric no longer takes for numerals) *)
+      (match List.map Int64.of_string (String.split_on_char '-' s) with
+       | a :: r -> Some [LNum (NInt (z_of_string (Int64.to_string (List.fold_left Int64.sub a r))))]
+       | [] -> None)
     else if is_ident s && not (List.mem s keywords) then Some [LNil]
     else None
 
@@ -195,7 +201,7 @@ let parse_data_s (s : string) : data =
 
 let variant_of (s : string) : lm_variant =
   { lm_empty_atom_is_nil = (s.[0] = '1'); lm_keys_sorted_as_text = (s.[1] = '1'); lm_int_via_double = (s.[2] = '1');
-    lm_empty_key_undefined = (s.[3] = '1') }
+    lm_empty_key_undefined = (s.[3] = '1'); lm_sign_anywhere = (String.length s > 4 && s.[4] = '1') }
 
 (* ---------------------------------------------------------------- the instantiated model *)
 let m_get_lua_as_data vr l = get_lua_as_data long_to_double double_to_str vr l
@@ -267,10 +273,11 @@ let handle (line : string) : string =
       let changed = List.filter (fun s -> store_get s g1 <> store_get s g0) system_vars in
       Printf.sprintf "guard=%s changed=%s" (b2s (is_protected loc))
         (if changed = [] then "-" else String.concat "," (List.map string_of_bytes changed))
-  | ["num"; h] ->
+  | ["num"; vr; h] ->
+      let vr = variant_of vr in
       let s = bytes_of_hex h in
       Printf.sprintf "dbl=%s lng=%s isnum=%s isint=%s" (hex_of_bytes (double_to_str (str_to_double s)))
-        (string_of_bytes (dec_of_Z (str_to_long s))) (b2s (is_numeric s)) (b2s (is_integer s))
+        (string_of_bytes (dec_of_Z (str_to_long s))) (b2s (is_numeric vr.lm_sign_anywhere s)) (b2s (is_integer vr.lm_sign_anywhere s))
   | ["table"] ->
       Printf.sprintf "protected=%s guard_first=%s init_clears_first=%s"
         (String.concat "," (List.map string_of_bytes lua_protected)) (b2s lua_guard_first) (b2s lua_init_clears_first)
